@@ -690,24 +690,17 @@ def cli_position_stream(chk):
                 paths.append(pth)
 
             def alone(pth):
-                with open(pth, encoding='utf-8') as f:
-                    try:
-                        common.timed(lambda: list(penman.iterparse(f)), seconds=5)
-                        return None
-                    except penman.DecodeError as e:
-                        return ('DecodeError', e.lineno, e.offset, e.text)
-                    except Exception as e:     # noqa
-                        return (type(e).__name__,)
+                """the command on this file alone: ('exit', status) or how it ends"""
+                try:
+                    return ('exit', c20.run_cli_inprocess([], None, [pth])[1])
+                except penman.DecodeError as e:
+                    return ('DecodeError', e.lineno, e.offset, e.text)
+                except Exception as e:     # noqa
+                    return (type(e).__name__,)
             refs = [alone(pth) for pth in paths]
-            first_bad = next((j for j, r in enumerate(refs) if r is not None), None)
+            first_bad = next((j for j, r in enumerate(refs) if r != ('exit', 0)), None)
             if first_bad is None or refs[first_bad][0] != 'DecodeError':
-                continue
-            # the files before it must go through the whole command (a text can parse and still not be laid out)
-            try:
-                if any(c20.run_cli_inprocess([], None, [pth])[1] != 0 for pth in paths[:first_bad]):
-                    continue
-            except Exception:      # noqa
-                continue
+                continue                # (a text can parse and still not be laid out: not the case studied here)
             case = {'stream': 'cli-positions', 'files': texts}
             chk.count(('cli-positions', tuple(texts)))
             try:
